@@ -514,12 +514,12 @@ Section Machines.
 End Machines.
 
 (* ---------- whole programs ---------- *)
-Lemma compile_defs_prefix : forall lg defs codata ul front back res,
-  compile_defs lg defs codata ul front back = Ok res ->
+Lemma compile_defs_prefix : forall lg called defs codata ul front back res,
+  compile_defs lg called defs codata ul front back = Ok res ->
   (forall d, In d defs -> fdname d <> "main") ->
   exists tl, res = front ++ tl.
 Proof.
-  intros lg. induction defs as [|d r IH]; intros codata ul front back res H Hnm; simpl in H.
+  intros lg called. induction defs as [|d r IH]; intros codata ul front back res H Hnm; simpl in H.
   - injection H as H. subst. eexists. reflexivity.
   - destruct (String.eqb (fdname d) "main") eqn:E.
     + apply String.eqb_eq in E. exfalso. apply (Hnm d); [left; reflexivity | exact E].
@@ -527,12 +527,12 @@ Proof.
       eapply IH; [exact H|]. intros d' Hd'. apply Hnm. right. exact Hd'.
 Qed.
 
-Lemma compile_defs_main_head : forall lg defs codata ul front back res d,
-  compile_defs lg defs codata ul front back = Ok res ->
+Lemma compile_defs_main_head : forall lg called defs codata ul front back res d,
+  compile_defs lg called defs codata ul front back = Ok res ->
   NoDup (map fdname defs) -> In d defs -> fdname d = "main" ->
-  exists ul1 g ul2 tl, compile_main lg d codata ul1 = Ok (g, ul2) /\ res = g ++ front ++ tl.
+  exists ul1 g ul2 tl, compile_main_group lg called d codata ul1 = Ok (g, ul2) /\ res = g ++ front ++ tl.
 Proof.
-  intros lg. induction defs as [|d0 r IH]; intros codata ul front back res d H Hnd Hin Hmain; simpl in H; [contradiction|].
+  intros lg called. induction defs as [|d0 r IH]; intros codata ul front back res d H Hnd Hin Hmain; simpl in H; [contradiction|].
   simpl in Hnd. inversion Hnd as [|? ? Hnot Hnd']; subst.
   destruct (String.eqb (fdname d0) "main") eqn:E.
   - apply String.eqb_eq in E.
@@ -540,8 +540,8 @@ Proof.
     { destruct Hin as [Hin|Hin]; [symmetry; exact Hin|]. exfalso. apply Hnot. rewrite E, <- Hmain.
       apply in_map. exact Hin. }
     subst d0.
-    destruct (compile_main lg d codata ul) as [[g ul']|?] eqn:Em; simpl in H; [|discriminate].
-    destruct (compile_defs_prefix _ _ _ _ _ _ _ H) as [tl Htl].
+    destruct (compile_main_group lg called d codata ul) as [[g ul']|?] eqn:Em; simpl in H; [|discriminate].
+    destruct (compile_defs_prefix _ _ _ _ _ _ _ _ H) as [tl Htl].
     + intros d' Hd' Hc. apply Hnot. rewrite E, <- Hc. apply in_map. exact Hd'.
     + exists ul, g, ul', tl. split; [exact Em|]. rewrite Htl, app_assoc. reflexivity.
   - destruct Hin as [Hin|Hin]; [subst d0; rewrite Hmain in E; discriminate|].
@@ -590,18 +590,19 @@ Theorem fun2core_correct_partial_lemma : forall (p : fcprog) (c : cprog) (d : fd
   NoDup (map fdname (fcpdefs p)) ->
   ffind_def p "main" = Some d ->
   islf (fdbody d) = true ->
+  calls_main_prog p = false ->
   run_fun n p args = o -> snd o <> OOutOfFuel ->
   exists m, run_core m c args = o.
 Proof.
-  intros p c d args n o Hcomp Hnd Hfind Hfrag Hrun Hne.
-  unfold compile_prog, compile_prog_gen in Hcomp.
-  destruct (compile_defs false (fcpdefs p) _ _ [] []) as [defs|?] eqn:Ed; simpl in Hcomp; [|discriminate].
+  intros p c d args n o Hcomp Hnd Hfind Hfrag Hncm Hrun Hne.
+  unfold compile_prog, compile_prog_gen in Hcomp. rewrite Hncm in Hcomp.
+  destruct (compile_defs false false (fcpdefs p) _ _ [] []) as [defs|?] eqn:Ed; simpl in Hcomp; [|discriminate].
   injection Hcomp as Hc. subst c.
   unfold ffind_def in Hfind. apply find_some in Hfind. destruct Hfind as [Hin Hname].
   apply String.eqb_eq in Hname.
-  destruct (compile_defs_main_head _ _ _ _ _ _ _ _ Ed Hnd Hin Hname) as [ul1 [g [ul2 [tl [Hm Hres]]]]].
+  destruct (compile_defs_main_head _ _ _ _ _ _ _ _ _ Ed Hnd Hin Hname) as [ul1 [g [ul2 [tl [Hm Hres]]]]].
   simpl in Hres. subst defs.
-  unfold compile_main in Hm.
+  unfold compile_main_group in Hm. cbn [andb] in Hm. unfold compile_main in Hm.
   match type of Hm with context [run_def_body ?cd ?dd ?u ?k] =>
     destruct (run_def_body cd dd u k) as [[body st]|?] eqn:Eb end; simpl in Hm; [|discriminate].
   injection Hm as Hg Hul. subst g.
